@@ -22,6 +22,9 @@ M = [
  ("R5m Planner.current: the exclude patterns are not handed to the realm-scoped inspection", [
    (MIG, "\t\t\treturn RealmConn(p.drv, &schema.InspectRealmOption{\n\t\t\t\tExclude: p.exclude,\n\t\t\t})",
          "\t\t\treturn RealmConn(p.drv, &schema.InspectRealmOption{})")]),
+ ("R5n pg alterType default arm: an enum type written with FormatType (raw) instead of enumIdent -- must NOT be absorbed by the recorded finding", [
+   ("sql/postgres/migrate_oss.go", "\t\tif e, ok := c.To.Type.Type.(*schema.EnumType); ok {\n\t\t\tf = s.enumIdent(e)\n\t\t} else if f, err = FormatType(c.To.Type.Type); err != nil {",
+    "\t\tif f, err = FormatType(c.To.Type.Type); err != nil {")]),
  # the oracle's tokenizer (not atlas code): drift between lexChains and the Coq scanner must be seen
  ("T1 TOKENIZER lexChains: backslash escapes honoured in PostgreSQL strings too", [
    (LEX, "if stmt[j] == '\\\\' && !pg && j+1 < len(stmt) {", "if stmt[j] == '\\\\' && j+1 < len(stmt) {")]),
